@@ -312,6 +312,9 @@ def r5_preamble(ctx):
         g = guards_of(enclosing_stmt(v), run)
         ok = any("result_file" in unparse(t) and "exists" in unparse(t) and pol for t, pol in g)
         ctx.ob("C02.R5", EXP, "Experiment.run", enclosing_stmt(v), "restore is attempted exactly when the result file exists", ok)
+        ok2 = any("st_size" in unparse(t) and pol for t, pol in g) or any("getsize" in unparse(t) and pol for t, pol in g)
+        ctx.ob("C02.R5", EXP, "Experiment.run", enclosing_stmt(v), "an existing but empty file (the shortest prefix a killed run can leave) is not restored from: the run starts fresh", ok2,
+               stmt="empty file is a fresh start")
     for callee, pos in (("MakeTasks", 1), ("TransactionEncode", 0)):
         cs = find_calls(run, callee)
         ctx.floor("C02.R5", f"{callee}(...) in Experiment.run", len(cs), 1)
@@ -523,6 +526,7 @@ def _memoise_from_save(tree):
 
 
 CONTROLS = [
+    ("empty result file is restored from", EXP, M.replace_expr("Experiment.run", "result_file and Path(result_file).exists() and (Path(result_file).stat().st_size > 0)", "result_file and Path(result_file).exists()"), "C02.R5"),
     ("encoder skips evaluations it believes restored", RES, M.insert_before("TransactionEncode.filter", lambda st: isinstance(st, ast.Assign) and "defaultdict" in ast.unparse(st.value),
                                                                            "if self._restored and tuple(item[1][:2]) in set(): continue"), "C02.R8"),
     ("equal-sized batches drop the remainder", PROC, M.replace_stmt("ChunkTasks._max_chunker", lambda st: isinstance(st, ast.While),
